@@ -118,7 +118,13 @@ def run(case, ctx):
             judged_any = True
     pl = layouts(pred, r)
     rl = layouts(refa, r)
-    for (n1, p2), (n2, r2) in zip(pl, rl):
+    combos = list(zip(pl, rl))
+    # prediction and reference in *different* memory layouts (values unchanged)
+    combos += [(pl[j], rl[(j + 1) % len(rl)]) for j in range(len(pl))] + [(("c_order", pred), rl[0]), (pl[0], ("c_order", refa))]
+    for (n1, p2), (n2, r2) in combos:
+        if n1 != n2:
+            n1 = n1 + "+" + n2
+            ctx.count("f:C10.mixed_layouts")
         t = meta.run(cfg, p2, r2)
         ctx.count("evaluations")
         ctx.count("C10.judged")
